@@ -92,6 +92,7 @@ class World:
         self.known = cfg.get("known") or []
         self.known_hits = {}
         self.other_props = {}
+        self.cache_seen = {}
 
     # ------------------------------------------------------------------ #
 
@@ -363,6 +364,14 @@ class World:
         # invariants after the call, successful or not
         t0 = time.monotonic()
         if cfg.get("check_pure"):
+            from .oracles.fingerprint import cache_snapshot
+
+            for cn, pname in cache_snapshot(self.cache_seen):
+                self.violation(
+                    "C07", "analysis-cache-entry-mutated",
+                    f"cached analysis of sub-procedure '{pname}' in {cn} changed after {name}",
+                    {"op": name, "sig": "analysis-cache-entry-mutated", "cache": cn},
+                )
             for p in procs:
                 rec = self.registry.get(id(p))
                 if rec is not None:
